@@ -72,6 +72,7 @@ pub fn run<C: Ciphersuite, L: Lab<C>>(lab: &mut L, p: &Params) {
     let coeffs = run.r1_secret[&sender].coefficients();
 
     lab.enter("fault");
+    lab.set_policy(Pol::ForkAdv);
     // where the fault must be detected: 2 = part2, 3 = part3; attributable faults must name the sender
     let (stage, attributable, what): (u8, bool, &str) = match p.variant {
         F_NONE => (0, false, "no fault"),
@@ -82,8 +83,10 @@ pub fn run<C: Ciphersuite, L: Lab<C>>(lab: &mut L, p: &Params) {
             (2, true, "proof-of-knowledge response altered")
         }
         F_R => {
-            let d = lab.adv_element("DeltaR");
-            r1.insert(sender, round1::Package::new(honest.commitment().clone(), Signature::<C>::new(*pok.R() + d, *pok.z())));
+            // any other (decodable, hence non-identity) element in place of R
+            let r_new = lab.adv_element("R'");
+            lab.assume_ne_e(r_new, *pok.R(), "the proof commitment is altered");
+            r1.insert(sender, round1::Package::new(honest.commitment().clone(), Signature::<C>::new(r_new, *pok.z())));
             (2, true, "proof-of-knowledge commitment altered")
         }
         F_PROOF_OTHER_ID => {
@@ -122,9 +125,10 @@ pub fn run<C: Ciphersuite, L: Lab<C>>(lab: &mut L, p: &Params) {
             (2, false, "commitment one entry long")
         }
         F_COEFF => {
-            let d = lab.adv_element("DeltaC");
+            let c_new = lab.adv_element("phi'");
             let mut cs: Vec<CoefficientCommitment<C>> = honest.commitment().coefficients().to_vec();
-            cs[extra] = CoefficientCommitment::new(cs[extra].value() + d);
+            lab.assume_ne_e(c_new, cs[extra].value(), "the commitment coefficient is altered");
+            cs[extra] = CoefficientCommitment::new(c_new);
             r1.insert(sender, round1::Package::new(VerifiableSecretSharingCommitment::new(cs), pok));
             // the proof binds only the constant term: k = 0 fails in part2, k >= 1 in part3
             (if extra == 0 { 2 } else { 3 }, true, "commitment coefficient altered")
@@ -221,7 +225,7 @@ pub fn run<C: Ciphersuite, L: Lab<C>>(lab: &mut L, p: &Params) {
         lab.expect_reject(m, p3.is_ok(), &format!("part3 rejects instead of producing key material: {what}"));
         if let Err(e) = &p3 {
             if attributable {
-                lab.check(e.culprits() == vec![sender] && err_name(e) == "InvalidSecretShare", &format!("part3 names exactly the offending sender: {what}"));
+                lab.check(e.culprits() == vec![sender], &format!("part3 names exactly the offending sender: {what}"));
             }
         }
     } else {
